@@ -15,7 +15,7 @@ driver-side `wf` check of every model state in the correspondence run, and by th
 `relocate_ok`, `setKey_ok`, `rearrange_local`. -/
 def Proved : Op → Bool
   | .lReverse _ | .lSort _ _ _ | .lClear _ | .dClear _ | .dPopItem _ | .delItem _ _ | .lPop _ _
-  | .lRemove _ _ | .dPop _ _ => true
+  | .lRemove _ _ | .dPop _ _ | .lDelSlice _ _ _ _ | .setSeal _ _ => true
   | _ => false
 
 def C01_step_Full : Prop :=
@@ -41,11 +41,43 @@ theorem C01_step_partial (f : Forest) (n : Bool) (op : Op) (hf : f.ok = true) (h
   | lExtend t vs => simp [Proved] at hp
   | lIMul t k => simp [Proved] at hp
   | lSetSlice t a b c vs => simp [Proved] at hp
-  | lDelSlice t a b c => simp [Proved] at hp
-  | setSeal t flag => simp [Proved] at hp
   | dSetDefault t k v => simp [Proved] at hp
   | dUpdate t kvs => simp [Proved] at hp
   | rebind t pairs skip => simp [Proved] at hp
+  | lDelSlice t a b c =>
+    cases hfind : f.find? t with
+    | none => simp only [step, hfind]; exact hf
+    | some tr =>
+      cases tr with
+      | leaf a => simp only [step, hfind]; exact hf
+      | node m its =>
+        have hits := Forest.find?_node_ok f hf t m its hfind
+        simp only [step, hfind]
+        split
+        · exact hf
+        · split
+          · exact hf
+          · split
+            · exact hf
+            · split
+              · exact hf
+              · split
+                · exact notify_ok _ _ (rawDelMany_ok f m its _ hf hits)
+                · exact rawDelMany_ok f m its _ hf hits
+  | setSeal t flag =>
+    cases hfind : f.find? t with
+    | none => simp only [step, hfind]; exact hf
+    | some tr =>
+      cases tr with
+      | leaf a => simp only [step, hfind]; exact hf
+      | node m its =>
+        have hits := Forest.find?_node_ok f hf t m its hfind
+        simp only [step, hfind]
+        rw [Forest.ok_iff] at hf ⊢
+        intro r hr
+        simp only [List.mem_map] at hr
+        obtain ⟨r0, hr0, rfl⟩ := hr
+        exact mapSubtree_seal_okRoot t flag r0 (hf r0 hr0)
   | delItem t k =>
     cases hfind : f.find? t with
     | none => simp only [step, hfind]; exact hf
@@ -168,6 +200,175 @@ theorem C01_step_partial (f : Forest) (n : Bool) (op : Op) (hf : f.ok = true) (h
         split
         · exact hf
         · exact dropAll_ok f t m its hf hits
+
+/-- **Removed / replaced nodes are detached**: if no tree held by the program claims a parent, the
+same holds after every operation of `Proved` — in particular the values that `del`, `pop`,
+`remove`, `clear`, `popitem` and slice deletion take out of a container become roots of the
+forest whose believed parent is none (and they are gone from the payload: `dropAll`,
+`rawDelList`, `rawDelMany`, `eraseKey`). -/
+theorem C01_removed_detached (f : Forest) (n : Bool) (op : Op) (hf : f.rootsFree = true) (hp : Proved op = true) :
+    (stepA Cfg.patched f n op).forest.rootsFree = true := by
+  unfold stepA
+  split
+  · exact hf
+  unfold stepN
+  apply normalizeRoots_free
+  cases op with
+  | new v => simp [Proved] at hp
+  | clone t deep => simp [Proved] at hp
+  | setItem t k v => simp [Proved] at hp
+  | lAppend t v => simp [Proved] at hp
+  | lInsert t idx v => simp [Proved] at hp
+  | lExtend t vs => simp [Proved] at hp
+  | lIMul t k => simp [Proved] at hp
+  | lSetSlice t a b c vs => simp [Proved] at hp
+  | dSetDefault t k v => simp [Proved] at hp
+  | dUpdate t kvs => simp [Proved] at hp
+  | rebind t pairs skip => simp [Proved] at hp
+  | lDelSlice t a b c =>
+    cases hfind : f.find? t with
+    | none => simp only [step, hfind]; exact hf
+    | some tr =>
+      cases tr with
+      | leaf a => simp only [step, hfind]; exact hf
+      | node m its =>
+        simp only [step, hfind]
+        split
+        · exact hf
+        · split
+          · exact hf
+          · split
+            · exact hf
+            · split
+              · exact hf
+              · split
+                · exact notify_free _ _ (rawDelMany_free f m its _ hf)
+                · exact rawDelMany_free f m its _ hf
+  | setSeal t flag =>
+    cases hfind : f.find? t with
+    | none => simp only [step, hfind]; exact hf
+    | some tr =>
+      cases tr with
+      | leaf a => simp only [step, hfind]; exact hf
+      | node m its =>
+        simp only [step, hfind]
+        rw [Forest.rootsFree_iff] at hf ⊢
+        intro r hr
+        simp only [List.mem_map] at hr
+        obtain ⟨r0, hr0, rfl⟩ := hr
+        rw [mapSubtree_seal_parentless]; exact hf r0 hr0
+  | delItem t k =>
+    cases hfind : f.find? t with
+    | none => simp only [step, hfind]; exact hf
+    | some tr =>
+      cases tr with
+      | leaf a => simp only [step, hfind]; exact hf
+      | node m its =>
+        simp only [step, hfind]
+        cases hk : m.kind with
+        | dict => exact delItemDict_free f n m its k false hf hk
+        | list =>
+          cases k with
+          | s _ => exact hf
+          | i idx => exact delItemList_free f n m its idx false hf
+        | obj c => exact hf
+  | lPop t idx =>
+    cases hfind : f.find? t with
+    | none => simp only [step, hfind]; exact hf
+    | some tr =>
+      cases tr with
+      | leaf a => simp only [step, hfind]; exact hf
+      | node m its =>
+        simp only [step, hfind]
+        split
+        · exact hf
+        · exact delItemList_free f n m its _ true hf
+  | lRemove t a =>
+    cases hfind : f.find? t with
+    | none => simp only [step, hfind]; exact hf
+    | some tr =>
+      cases tr with
+      | leaf a => simp only [step, hfind]; exact hf
+      | node m its =>
+        simp only [step, hfind]
+        split
+        · exact delItemList_free f n m its _ false hf
+        · exact hf
+  | lClear t =>
+    cases hfind : f.find? t with
+    | none => simp only [step, hfind]; exact hf
+    | some tr =>
+      cases tr with
+      | leaf a => simp only [step, hfind]; exact hf
+      | node m its =>
+        simp only [step, hfind]
+        split
+        · exact hf
+        · exact dropAll_free f t m its hf
+  | lSort t ranks rev =>
+    cases hfind : f.find? t with
+    | none => simp only [step, hfind]; exact hf
+    | some tr =>
+      cases tr with
+      | leaf a => simp only [step, hfind]; exact hf
+      | node m its =>
+        simp only [step, hfind]
+        split
+        · exact hf
+        · exact permute_free f t _ hf
+  | lReverse t =>
+    cases hfind : f.find? t with
+    | none => simp only [step, hfind]; exact hf
+    | some tr =>
+      cases tr with
+      | leaf a => simp only [step, hfind]; exact hf
+      | node m its =>
+        simp only [step, hfind]
+        split
+        · exact hf
+        · exact permute_free f t _ hf
+  | dPop t k =>
+    cases hfind : f.find? t with
+    | none => simp only [step, hfind]; exact hf
+    | some tr =>
+      cases tr with
+      | leaf a => simp only [step, hfind]; exact hf
+      | node m its =>
+        simp only [step, hfind]
+        split
+        · next hk =>
+          split
+          · exact delItemDict_free f n m its k true hf hk
+          · exact hf
+        · exact hf
+  | dPopItem t =>
+    cases hfind : f.find? t with
+    | none => simp only [step, hfind]; exact hf
+    | some tr =>
+      cases tr with
+      | leaf a => simp only [step, hfind]; exact hf
+      | node m its =>
+        simp only [step, hfind]
+        split
+        · exact hf
+        · split
+          · exact hf
+          · next k c hlast =>
+            apply addRoot_free _ _ (mapAt_free f t _ hf)
+            simp only [Cfg.patched, if_true]
+            exact detachFrom_parentless _ _
+  | dClear t =>
+    cases hfind : f.find? t with
+    | none => simp only [step, hfind]; exact hf
+    | some tr =>
+      cases tr with
+      | leaf a => simp only [step, hfind]; exact hf
+      | node m its =>
+        simp only [step, hfind]
+        split
+        · exact hf
+        · exact dropAll_free f t m its hf
+
 
 /-! ## Histories -/
 
